@@ -11,6 +11,7 @@ TABLE = {
     "C03": ("rt", ("C03",)),
     "C02": ("c02", ()),
     "C04": ("c04", ()),
+    "C05": ("c05", ()),
     "C09": ("c09", ()),
     "C10": ("c10", ()),
     "C11": ("c11", ()),
@@ -18,6 +19,8 @@ TABLE = {
     "C13": ("c13", ()),
     "C14": ("c14", ()),
     "C15": ("c15", ()),
+    "C16": ("c16", ()),
+    "C17": ("c17", ()),
     "C20": ("c20", ()),
 }
 
